@@ -347,44 +347,44 @@ func (w *world) prep(ctx sdk.Context, kind string) error {
 	case "EvRemoveUserSmartContract", "EvDeployUserSmartContract", "EvUploadUserSmartContract":
 		once("usc", func() {
 			w.both(func(p int) {
-			id, err := a.EvmKeeper.SaveUserSmartContract(ctx, w.valoper(p).String(), &evmtypes.UserSmartContract{Title: fmt.Sprintf("c%d", p), AbiJson: "[]", Bytecode: "0x6001600255", ConstructorInput: "0x01"})
-			must(err)
-			w.uscID[p] = id
-		})
+				id, err := a.EvmKeeper.SaveUserSmartContract(ctx, w.valoper(p).String(), &evmtypes.UserSmartContract{Title: fmt.Sprintf("c%d", p), AbiJson: "[]", Bytecode: "0x6001600255", ConstructorInput: "0x01"})
+				must(err)
+				w.uscID[p] = id
+			})
 		})
 	case "PaRegisterLightNodeClient":
 		// both principals bought a licence (the module holds the funds); set-up writes the records directly because
 		// CreateLightNodeClientLicense only serves addresses that have no account yet
 		coin := sdk.NewInt64Coin(env.BondDenom, 1_000_000)
 		once("lic", func() {
-		w.both(func(p int) {
-			must(a.BankKeeper.SendCoinsFromAccountToModule(ctx, w.funderLN().Addr, palomatypes.ModuleName, sdk.NewCoins(coin)))
-			must(a.PalomaKeeper.SetLightNodeClientLicense(ctx, w.addr(p).String(), &palomatypes.LightNodeClientLicense{ClientAddress: w.addr(p).String(), Amount: coin, VestingMonths: 12}))
-		})
+			w.both(func(p int) {
+				must(a.BankKeeper.SendCoinsFromAccountToModule(ctx, w.funderLN().Addr, palomatypes.ModuleName, sdk.NewCoins(coin)))
+				must(a.PalomaKeeper.SetLightNodeClientLicense(ctx, w.addr(p).String(), &palomatypes.LightNodeClientLicense{ClientAddress: w.addr(p).String(), Amount: coin, VestingMonths: 12}))
+			})
 		})
 	case "PaAuthLightNodeClient":
 		once("cli", func() {
-		w.both(func(p int) {
-			must(a.PalomaKeeper.SetLightNodeClient(ctx, w.addr(p).String(), &palomatypes.LightNodeClient{ClientAddress: w.addr(p).String(), ActivatedAt: ctx.BlockTime(), LastAuthAt: ctx.BlockTime()}))
-		})
+			w.both(func(p int) {
+				must(a.PalomaKeeper.SetLightNodeClient(ctx, w.addr(p).String(), &palomatypes.LightNodeClient{ClientAddress: w.addr(p).String(), ActivatedAt: ctx.BlockTime(), LastAuthAt: ctx.BlockTime()}))
+			})
 		})
 	case "PaSetLegacyLightNodeClients":
 		// both principals are legacy light nodes: fee grantees of the light-node granter without a client record
 		once("legacy", func() {
-		w.both(func(p int) {
-			must(a.FeeGrantKeeper.GrantAllowance(ctx, w.granterLN().Addr, w.addr(p), &feegrant.BasicAllowance{SpendLimit: sdk.NewCoins(sdk.NewInt64Coin(env.BondDenom, 1_000_000))}))
-		})
+			w.both(func(p int) {
+				must(a.FeeGrantKeeper.GrantAllowance(ctx, w.granterLN().Addr, w.addr(p), &feegrant.BasicAllowance{SpendLimit: sdk.NewCoins(sdk.NewInt64Coin(env.BondDenom, 1_000_000))}))
+			})
 		})
 	case "TfMint", "TfBurn", "TfChangeAdmin", "TfSetDenomMetadata", "TfCreateDenom":
 		once("denoms", func() { denoms(5) })
 	case "ScCreateJob", "ScExecuteJob":
 		once("jobs", func() {
-		w.both(func(p int) {
-			id := fmt.Sprintf("job-%d", p)
-			must(a.SchedulerKeeper.AddNewJob(ctx, &schedtypes.Job{ID: id, Owner: w.addr(p), Routing: schedtypes.Routing{ChainType: "evm", ChainReferenceID: chain},
-				Definition: []byte(jobDef), Payload: []byte(jobPayload)}))
-			w.jobID[p] = id
-		})
+			w.both(func(p int) {
+				id := fmt.Sprintf("job-%d", p)
+				must(a.SchedulerKeeper.AddNewJob(ctx, &schedtypes.Job{ID: id, Owner: w.addr(p), Routing: schedtypes.Routing{ChainType: "evm", ChainReferenceID: chain},
+					Definition: []byte(jobDef), Payload: []byte(jobPayload)}))
+				w.jobID[p] = id
+			})
 		})
 	}
 	return nil
